@@ -1203,6 +1203,10 @@ func (x *X) step(s *State, in ssa.Instruction) bool {
 			if hi >= 0 && hi <= n {
 				n = hi
 			}
+			if n == 0 && namedOf(i.Type()) == tyCoins {
+				fr.env[i] = Sc{T: "noCoins", Sort: "(Array Str Int)"} // sdk.Coins{}: the empty coin set
+				return adv()
+			}
 			at := i.X.Type().Underlying().(*types.Pointer).Elem().Underlying().(*types.Array)
 			opaque, ifaces := false, IfaceArr{map[int]Iface{}}
 			_, elemIsIface := at.Elem().Underlying().(*types.Interface)
